@@ -131,7 +131,7 @@ def check_case(p, ctx):
         n = nint[ri] + 2
         theta = abs(r.theta) if r.c is not None else 0.0
         if theta == 0.0:
-            if rhs > 1e-9 * max(T[ri], 1e-300):
+            if rhs > (1e-9 + 10 * turning_floor(t, nint, ri)) * max(T[ri], 1e-300):
                 return ctx.violation("turning-straight", p, observed=rhs / T[ri], expected=0.0, detail={"ridge": ri})
             continue
         cs = t.centre_side_cell(ri)
